@@ -257,6 +257,7 @@ class Gen:
         if prim and size * 1 <= MAX_UNROLL * 4 and prim[0] == 1:
             # byte arrays: contents are unconstrained
             self.emit(ind, "if w.ok { if w.p + %d > w.n { w.ok = false; } else { w.p += %d; } }  // %s[%d] %s" % (size, size, inner["name"], size, name))
+            self.max_array = max(self.max_array, size)   # the decoder may fill the array element by element
             return size, size
         for i in range(size):
             a, b = self.field(inner, "%s_%d" % (name, i), None, ind, {})
